@@ -41,6 +41,15 @@ type c10ReplicaEntry struct {
 	Count int64  `json:"count"`
 }
 
+// c10PatchEntry: one entry of a patches: list. With Target the patch body is anonymous (applies to what
+// the selector selects); without, the body names ONE resource (apiVersion, kind, name, namespace) and
+// applies to that resource only. Every entry adds its own annotation Key: "yes".
+type c10PatchEntry struct {
+	Target *c10Sel `json:"target,omitempty"`
+	ByName *c10Res `json:"byName,omitempty"`
+	Key    string  `json:"key"`
+}
+
 // c10Tree: one generated build.
 type c10Tree struct {
 	Res      []c10Res          `json:"res"`
@@ -50,6 +59,7 @@ type c10Tree struct {
 	Replicas []c10ReplicaEntry `json:"replicas,omitempty"`
 	Repls    []c10Repl         `json:"repls,omitempty"`
 	Patch    *c10Sel           `json:"patch,omitempty"` // patches: [{target: ..., patch: SMP adding annotation patched=yes}]
+	Patches  []c10PatchEntry   `json:"patches,omitempty"` // a patches: list mixing targeted and untargeted strategic-merge entries
 }
 
 func (t c10Tree) files() map[string]string {
@@ -90,6 +100,21 @@ func (t c10Tree) files() map[string]string {
 		for _, r := range t.Repls {
 			b, _ := json.Marshal(r)
 			k.WriteString("- " + string(b) + "\n")
+		}
+	}
+	if len(t.Patches) > 0 {
+		k.WriteString("patches:\n")
+		for _, e := range t.Patches {
+			if e.Target != nil {
+				b, _ := json.Marshal(e.Target)
+				k.WriteString("- target: " + string(b) + "\n  patch: |-\n    apiVersion: v1\n    kind: NotImportant\n    metadata:\n      name: not-important\n      annotations:\n        " + e.Key + ": \"yes\"\n")
+			} else {
+				k.WriteString("- patch: |-\n    apiVersion: " + e.ByName.APIVersion + "\n    kind: " + e.ByName.Kind + "\n    metadata:\n      name: " + e.ByName.Name + "\n")
+				if e.ByName.Namespace != "" {
+					k.WriteString("      namespace: " + e.ByName.Namespace + "\n")
+				}
+				k.WriteString("      annotations:\n        " + e.Key + ": \"yes\"\n")
+			}
 		}
 	}
 	if t.Patch != nil {
@@ -354,10 +379,11 @@ type c10Spec struct {
 	Replicas []c10ReplicaEntry
 	Repls    []c10Repl
 	Patch    *c10Sel
+	Patches  []c10PatchEntry
 }
 
 func (t c10Tree) spec() c10Spec {
-	return c10Spec{Images: t.Images, Replicas: t.Replicas, Repls: t.Repls, Patch: t.Patch}
+	return c10Spec{Images: t.Images, Replicas: t.Replicas, Repls: t.Repls, Patch: t.Patch, Patches: t.Patches}
 }
 
 func (t c10Tree) outName(n string) string { return t.Prefix + n + t.Suffix }
@@ -602,6 +628,13 @@ func c10Resolve(root c10Obj, parts []string, create bool, regexKeys bool, firstO
 				if n == 0 {
 					if !create {
 						continue
+					}
+					if regexKeys {
+						// the entry PathMatcher would append is found again only if the value matches itself;
+						// otherwise creating it is an error (since the repair of the create-and-retry loop)
+						if re, err := regexp.Compile(kv[1]); err != nil || !re.MatchString(kv[1]) {
+							return nil, false, false
+						}
 					}
 					l = append(l, map[string]interface{}{kv[0]: kv[1]})
 					s.set(l)
@@ -979,6 +1012,57 @@ func c10SelectKeeps(v *c10View, s c10Sel) (keep bool, ok bool) {
 	return am, true
 }
 
+func c10Annotate(v *c10View, key string) {
+	md := v.obj["metadata"].(map[string]interface{})
+	an, ok := md["annotations"].(map[string]interface{})
+	if !ok {
+		an = map[string]interface{}{}
+		md["annotations"] = an
+	}
+	an[key] = "yes"
+}
+
+// predictPatches: every entry of a patches: list changes exactly what IT selects — a targeted entry the
+// resources its selector keeps, an untargeted one the single resource its body names (an error if
+// there is none) — whatever the entries before it were.
+func (sp c10Spec) predictPatches(p *c10Pred) {
+	for _, e := range sp.Patches {
+		if e.Target != nil {
+			for _, pat := range []string{e.Target.Group, e.Target.Version, e.Target.Kind, e.Target.Name, e.Target.Namespace} {
+				if _, ok := c10FullMatch(pat, ""); !ok {
+					p.err = true
+					return
+				}
+			}
+			for _, v := range p.views {
+				keep, ok := c10SelectKeeps(v, *e.Target)
+				if !ok {
+					p.err = true
+					return
+				}
+				if keep {
+					c10Annotate(v, e.Key)
+				}
+			}
+			continue
+		}
+		g, ver := c10SplitAV(e.ByName.APIVersion)
+		n := 0
+		for _, v := range p.views {
+			cur := v.ids[0]
+			if cur.group == g && cur.version == ver && cur.kind == e.ByName.Kind && cur.name == e.ByName.Name &&
+				c10EffNsPlain(cur.ns) == c10EffNsPlain(e.ByName.Namespace) {
+				c10Annotate(v, e.Key)
+				n++
+			}
+		}
+		if n != 1 {
+			p.err = true // no resource (or several) for the named patch
+			return
+		}
+	}
+}
+
 func (sp c10Spec) predictPatch(p *c10Pred) {
 	s := sp.Patch
 	for _, pat := range []string{s.Group, s.Version, s.Kind, s.Name, s.Namespace} {
@@ -1008,7 +1092,10 @@ func (sp c10Spec) predictPatch(p *c10Pred) {
 
 // predictOn applies the directives to the views (kustomize's order: patches, replicas, images, replacements)
 func (sp c10Spec) predictOn(p *c10Pred, mode c10Mode) {
-	if sp.Patch != nil {
+	if len(sp.Patches) > 0 {
+		sp.predictPatches(p)
+	}
+	if !p.err && !p.unknown && sp.Patch != nil {
 		sp.predictPatch(p)
 	}
 	if !p.err && !p.unknown && len(sp.Replicas) > 0 {
@@ -1107,13 +1194,10 @@ func (t c10Tree) classify(cls string, out string) string {
 	case ClsPanic:
 		return "C10/build-panics"
 	case ClsDiverge:
-		if c10ExpectHang(c10Case{Kind: "repl", Repls: t.Repls}) {
-			return "C10/replacement-create-nonselfmatching-selector-hangs"
-		}
 		return "C10/build-does-not-return"
 	}
 	undecided := false
-	modes := []c10Mode{{ImgTwice: true}, {ListKeyRegex: true}, {SourceAlias: true}, {ListKeyRegex: true, SourceAlias: true}}
+	modes := []c10Mode{{ImgTwice: true}, {ListKeyRegex: true}} // the emulation of the repaired live source is gone: a reappearance is unlisted
 	for _, m := range modes {
 		if m.ImgTwice && len(t.Images) == 0 {
 			continue
@@ -1394,6 +1478,47 @@ func c10GenTree(r *Rng) c10Tree {
 			s.Lab = c10PickN(r, []string{"app=x", "app!=x", "tier", "!tier", "app=x,tier=web", "app=ax"})
 		}
 		t.Patch = &s
+		if r.Chance(55) {
+			// a patches: list mixing targeted and untargeted (by-name) entries, in both orders; no renaming base,
+			// so that a by-name patch names the resource as it is
+			t.Patch = nil
+			t.Prefix, t.Suffix = "", ""
+			n := 2 + r.Intn(2)
+			firstTargeted := r.Chance(60)
+			for i := 0; i < n; i++ {
+				e := c10PatchEntry{Key: "p" + strconv.Itoa(i)}
+				targeted := (i%2 == 0) == firstTargeted
+				if r.Chance(15) {
+					targeted = !targeted
+				}
+				if targeted {
+					sel := s
+					if i > 0 || r.Chance(50) {
+						x := pick()
+						sel = c10Sel{c10Id: c10Id{Name: c10PickN(r, []string{x.Name, x.Name + "|" + pick().Name, x.Name + ".*", x.Name})}}
+						if r.Chance(50) {
+							sel.Kind = x.Kind
+						}
+					}
+					e.Target = &sel
+				} else {
+					x := pick()
+					// prefer a resource the targeted entries are unlikely to select
+					for tries := 0; tries < 4; tries++ {
+						y := pick()
+						if y.Name != tp.Name {
+							x = y
+							break
+						}
+					}
+					e.ByName = &c10Res{APIVersion: x.APIVersion, Kind: x.Kind, Name: x.Name, Namespace: x.Namespace}
+					if r.Chance(8) {
+						e.ByName.Name = "absent"
+					}
+				}
+				t.Patches = append(t.Patches, e)
+			}
+		}
 	}
 	return t
 }
